@@ -359,7 +359,34 @@ func (c HugeCase) encode() []byte {
 	return out
 }
 
+// sweepCases: the same hand-built files for every vertex count 3..N once (encoding and list types
+// cycle with the count): a defect that needs an exact multiple of an internal block size cannot be
+// found by sampling counts.
+func sweepCases() []HugeCase {
+	n := 3000
+	if vh.Tier == "thorough" {
+		n = 30000
+	}
+	encs := []string{"ascii", "binary_little_endian", "binary_big_endian"}
+	var out []HugeCase
+	for k := 3; k <= n; k++ {
+		faces := [][]int{{0, 1, k - 1}, {k - 1, k / 2, 0}}
+		if k >= 4 {
+			faces = append(faces, []int{k - 1, k - 2, 1, k / 2})
+		}
+		out = append(out, HugeCase{Enc: encs[k%3], CountType: []string{"uchar", "int", "uint"}[(k/3)%3], IndexType: []string{"int", "uint"}[(k/9)%2], N: k, Faces: faces})
+	}
+	return out
+}
+
 func runHuge(c HugeCase, o *vh.Obs) *vh.Failure {
+	if c.N < 3 || c.N > 1<<25 {
+		o.Class("out-of-domain")
+		return nil
+	}
+	if c.N < 1<<24 {
+		o.Class("sweep/" + c.Enc)
+	}
 	o.Class("huge/" + c.Enc + "/" + c.CountType + "-" + c.IndexType)
 	o.NonTrivial()
 	file := c.encode()
@@ -391,7 +418,10 @@ func runHuge(c HugeCase, o *vh.Obs) *vh.Failure {
 			return vh.Failf("huge/corner-value/"+c.Enc, "corner %d names vertex %d at %v and is read as vertex %d at %v", k, w, e, gi, p)
 		}
 	}
-	for _, i := range []int{0, 1, 4095, 4096, 1 << 16, 1<<24 - 1, 1 << 24, c.N - 1} { // vertex i carries record i
+	for _, i := range []int{0, 1, 4095, 4096, 1 << 16, 1<<24 - 1, 1 << 24, c.N - 1, c.N / 2, c.N / 3} { // vertex i carries record i
+		if i >= c.N {
+			continue
+		}
 		e := hugeXYZ(i)
 		if p := got.At(i); p.X() != float64(e[0]) || p.Y() != float64(e[1]) || p.Z() != float64(e[2]) {
 			return vh.Failf("huge/vertex-value/"+c.Enc, "vertex %d is %v in the file and %v in the mesh", i, e, p)
@@ -404,6 +434,8 @@ func TestC08(t *testing.T) {
 	vh.Drive(t, vh.Spec[Case]{Name: "reference-files", Quick: 300000, Thorough: 2500000, Gen: genCase, Run: runCase, Deadline: 20 * time.Second})
 	// ~1 GB and a few seconds per case, one per encoding, on different shards
 	vh.Enumerate(t, vh.Spec[HugeCase]{Name: "huge-files", Run: runHuge, Deadline: 5 * time.Minute}, hugeCases())
+	vh.Enumerate(t, vh.Spec[HugeCase]{Name: "count-sweep", Run: runHuge,
+		Key: func(c HugeCase) string { return fmt.Sprintf("sweep-%d", c.N) }}, sweepCases())
 }
 
 func FuzzC08(f *testing.F) {
